@@ -112,11 +112,32 @@ def summarize(prop, tier, seed, cfg, results, wall, violations_out, known_hits):
     )
     for k, v in (cfg.get('extra_cov') or {}).items():
         cov[k] = v
+    repo_rev = None
+    try:
+        import subprocess
+        repo_rev = subprocess.run(['git', '-C', install.REPO, 'rev-parse', '--short', 'HEAD'], capture_output=True, text=True).stdout.strip()
+    except Exception:       # noqa: BLE001
+        pass
+    cov['repo_revision'] = repo_rev
+    soak = os.path.join(HERE, 'soak', '%s.thorough.json' % prop)
+    if tier != 'thorough' and os.path.exists(soak):
+        # the last thorough run of this check (kept in soak/, committed): a pointer, not this run's coverage
+        try:
+            t = json.load(open(soak))
+            cov['last_thorough_run'] = {'file': 'soak/%s.thorough.json' % prop, 'seed': t.get('seed'), 'evaluations': t['coverage'].get('evaluations'),
+                                        'violations': t.get('violations'), 'wall_s': t.get('wall_s'),
+                                        'repo_revision': t['coverage'].get('repo_revision')}
+        except Exception:       # noqa: BLE001
+            pass
     ev = dict(property_id=prop, tier=tier, seed=seed, level=cfg['level'], coverage=cov,
               assumptions=cfg.get('assumptions', []), wall_s=round(wall, 2), violations=len(violations_out))
     os.makedirs(os.path.join(HERE, 'evidence'), exist_ok=True)
     with open(os.path.join(HERE, 'evidence', '%s.json' % prop), 'w') as f:
         json.dump(ev, f, indent=1, default=repr)
+    if tier == 'thorough' and os.path.realpath(install.REPO) == os.path.realpath('/repo'):
+        os.makedirs(os.path.join(HERE, 'soak'), exist_ok=True)
+        with open(soak, 'w') as f:
+            json.dump(ev, f, indent=1, default=repr)
     return ev
 
 
